@@ -19,6 +19,11 @@ Proof. vm_compute. reflexivity. Qed.
 Theorem C14_macros_as_reviewed : mutex_macros_reviewed = true.
 Proof. reflexivity. Qed.
 
+(* every container mutex is created recursive (the second argument of each Q_MUTEX_NEW in the sources is `true`): the reading of
+   Q_MUTEX_ENTER used for entries at depth 1 - the owner's trylock succeeds - is the behaviour of a recursive mutex only *)
+Theorem C14_mutexes_recursive : forallb snd mutex_new_recursive = true /\ (5 <= List.length mutex_new_recursive)%nat.
+Proof. vm_compute. split; [reflexivity | repeat constructor]. Qed.
+
 (* hence: on every path, success or failure, the operation ends by return/fall-through with the depth it started with *)
 Theorem C14_every_path : forall name body, In (name, body) public_api ->
   forall tr o a', exec body (0, false) tr o a' -> (o = Normal \/ o = Ret) /\ fst a' = 0.
